@@ -132,6 +132,12 @@ func harnessFiles(j JobDef, native bool) (map[string][]byte, []string, error) {
 		ov["zz_verif_gen_"+n] = src
 		names = append(names, "zz_verif_gen_"+n)
 	}
+	if d := os.Getenv("VERIF_DUMPGEN"); d != "" {
+		os.MkdirAll(d, 0o755)
+		for n, src := range ov {
+			os.WriteFile(filepath.Join(d, n), src, 0o644)
+		}
+	}
 	ov["__pkgname__"] = []byte(pkgName)
 	return ov, names, nil
 }
@@ -418,7 +424,7 @@ func cmdCheck(args []string) int {
 	for _, j := range jobs {
 		l, pkg, err := loadJob(j)
 		if err != nil {
-			fmt.Println("INCONCLUSIVE: load:", err)
+			fmt.Println("INCONCLUSIVE: load of job", j.Name, ":", err)
 			return 2
 		}
 		fn := pkg.Func(j.Entry)
